@@ -19,6 +19,10 @@ pub struct Mode {
     pub followup_c08: bool,
     pub enum_c10: bool,
     pub probes_c20: bool,
+    /// enumerate ALL schedules (driver action interleavings incl. ack timing, up to 3 jobs
+    /// running) of evaluations with at most `enum_jobs` jobs, up to `enum_cap` schedules each
+    pub enum_cap: usize,
+    pub enum_jobs: usize,
 }
 
 impl Mode {
@@ -33,6 +37,8 @@ impl Mode {
             followup_c08: prop == "C08",
             enum_c10: prop == "C10",
             probes_c20: prop == "C20",
+            enum_cap: 0,
+            enum_jobs: 0,
         }
     }
     pub fn all() -> Mode {
@@ -46,6 +52,8 @@ impl Mode {
             followup_c08: true,
             enum_c10: true,
             probes_c20: true,
+            enum_cap: 0,
+            enum_jobs: 0,
         }
     }
 }
@@ -368,6 +376,67 @@ pub fn run_case(sc: &Scenario, mode: &Mode) -> CaseOut {
             match (&r2.new_history, r2.engine_error.is_none()) {
                 (Some(h), true) => w2.history = h.clone(),
                 _ => w15 = None,
+            }
+        }
+        if mode.enum_cap > 0 && res.engine_error.is_none() && w.active().len() <= mode.enum_jobs {
+            // every schedule of this evaluation (same pre-state, same failure set)
+            let mut pe = plan.clone();
+            pe.abort = None;
+            let compare = clean && !tainted && plan.fail == 0;
+            let mut idx: Vec<u8> = vec![];
+            let mut count = 0usize;
+            let mut complete = false;
+            loop {
+                let sch = Sched { choices: idx.clone(), max_running: 3, ack_mode: 1, decl: plan.sched.decl.clone(), exact: true };
+                let mut we = pre.clone();
+                let mut re = safe_eval(&mut we, &pe, &sch, &plain);
+                let _ = posthoc(&pre, &we, &mut re);
+                out.evals += 1;
+                count += 1;
+                for v in re.violations.iter() {
+                    if v.prop == mode.prop || v.prop == "C06" {
+                        vs.push(Violation { prop: v.prop, clause: v.clause.clone(), detail: format!("{} [enumerated schedule {:?}]", v.detail, idx) });
+                    }
+                }
+                if compare && re.engine_error.is_none() {
+                    if !re.clean() {
+                        vs.push(Violation { prop: "C14", clause: "enumerated-schedule-not-clean".into(), detail: format!("schedule {:?}: failed {:?} eco {:?}", idx, re.failed, re.eco) });
+                    } else if re.disp != res.disp {
+                        let diff: Vec<String> = res.disp.iter().filter(|(k, v)| re.disp.get(*k) != Some(v)).map(|(k, v)| format!("{}: {:?} vs {:?}", k, v, re.disp.get(k))).collect();
+                        vs.push(Violation { prop: "C14", clause: "dispositions-differ/enumerated-schedule".into(), detail: format!("schedule {:?}: {:?}", idx, diff) });
+                    } else if re.new_history != res.new_history {
+                        vs.push(Violation { prop: "C14", clause: "history-differs/enumerated-schedule".into(), detail: format!("schedule {:?}", idx) });
+                    } else if we.disk != w.disk {
+                        vs.push(Violation { prop: "C14", clause: "outputs-differ/enumerated-schedule".into(), detail: format!("schedule {:?}", idx) });
+                    }
+                }
+                // next schedule in depth-first order
+                let b = re.branching.clone();
+                idx.resize(b.len(), 0);
+                let mut i = b.len();
+                let mut advanced = false;
+                while i > 0 {
+                    i -= 1;
+                    if (idx[i] as usize) + 1 < b[i] as usize {
+                        idx[i] += 1;
+                        idx.truncate(i + 1);
+                        advanced = true;
+                        break;
+                    }
+                }
+                if !advanced {
+                    complete = true;
+                    break;
+                }
+                if count >= mode.enum_cap || !vs.is_empty() {
+                    break;
+                }
+            }
+            out.add("schedules_enumerated", count);
+            if complete {
+                out.count("evaluations_with_all_schedules_enumerated");
+            } else {
+                out.count("evaluations_with_schedule_enumeration_capped");
             }
         }
         if mode.enum_c10 && res.engine_error.is_none() {
